@@ -1,0 +1,285 @@
+//go:build verif
+// +build verif
+
+package udp
+
+// Machine-checked contracts for the UDP transport (comment-only file).
+//
+// Frame = one datagram: 8-byte header + body.
+//   header[0..3] CRC-32 (IEEE) of header[4..7], big endian
+//   header[4..5] body length (16 bit), header[6..7] request index (15 bit; bit 15 = error)
+// Datagrams are modelled by the ghost arrays of the net contracts (dg / dgw).
+
+//@ global errResponseTooLarge != nil
+
+//@ func makeHeader
+//@   prop C12 C09
+//@   nopanic
+//@   modifies nothing
+//@   requires [length_fits_16_bits] 0 <= length && length < 65536
+//@   ensures [index_big_endian] header[6] == byteof(index, 1) && header[7] == byteof(index, 0)
+//@   ensures [length_big_endian] header[4] == byteof(length, 1) && header[5] == byteof(length, 0)
+//@   ensures [checksum_is_32_bit] 0 <= crc4(header[4], header[5], header[6], header[7]) && crc4(header[4], header[5], header[6], header[7]) <= 4294967295
+//@   ensures [checksum_big_endian] header[0] == byteof(crc4(header[4], header[5], header[6], header[7]), 3) &&
+//@       header[1] == byteof(crc4(header[4], header[5], header[6], header[7]), 2) &&
+//@       header[2] == byteof(crc4(header[4], header[5], header[6], header[7]), 1) &&
+//@       header[3] == byteof(crc4(header[4], header[5], header[6], header[7]), 0)
+
+//@ func parseHeader
+//@   prop C12 C09
+//@   nopanic
+//@   modifies nothing
+//@   requires len(header) == 8
+//@   let crcok = crc4(header[4], header[5], header[6], header[7]) == header[0] * 16777216 + header[1] * 65536 + header[2] * 256 + header[3]
+//@   ensures [bad_checksum_rejected] !crcok ==> length == 0 && index == -1 && !ok
+//@   ensures [length_decoded] crcok ==> length == header[4] * 256 + header[5]
+//@   ensures [index_decoded_without_error_bit] crcok ==> index == (header[6] % 128) * 256 + header[7]
+//@   ensures [error_bit] crcok ==> (ok <==> header[6] < 128)
+//@   ensures [accepted_is_distinguishable] crcok ==> 0 <= length && length < 65536 && 0 <= index && index < 32768
+
+//@ lemma header_round_trip C12 C09
+//@   (declare-const length Int) (declare-const index Int) (declare-const e Int)
+//@   (declare-const h0 Int) (declare-const h1 Int) (declare-const h2 Int) (declare-const h3 Int)
+//@   (declare-const h4 Int) (declare-const h5 Int) (declare-const h6 Int) (declare-const h7 Int)
+//@   (assert (and (<= 0 length) (< length 65536) (<= 0 index) (< index 32768) (or (= e 0) (= e 1))))
+//@   (define-fun idx () Int (+ index (* e 32768)))
+//@   (assert (and (= h6 (byteof idx 1)) (= h7 (byteof idx 0)) (= h4 (byteof length 1)) (= h5 (byteof length 0))))
+//@   (define-fun crc () Int (crc4 h4 h5 h6 h7))
+//@   (assert (and (<= 0 crc) (<= crc 4294967295)))
+//@   (assert (and (= h0 (byteof crc 3)) (= h1 (byteof crc 2)) (= h2 (byteof crc 1)) (= h3 (byteof crc 0))))
+//@   (define-fun crcok () Bool (= crc (+ (* h0 16777216) (* h1 65536) (* h2 256) h3)))
+//@   (assert (not (and crcok (= (+ (* h4 256) h5) length) (= (+ (* (mod h6 128) 256) h7) index) (= (< h6 128) (= e 0)))))
+
+// ---- server side -----------------------------------------------------------------
+// run / task: goroutine roots; their precondition is what receive must establish before
+// dispatching (checked at the go statement and at the worker-pool submission):
+//   C13  the body is within Service.MaxRequestLength
+//   C12  the body is exactly the payload of the datagram just received: its length is the number
+//        of bytes received minus the header, which is also what the (checksummed) header announces,
+//        and every byte is the datagram's byte.
+
+//@ func (*Handler).run
+//@   prop C12 C13 C11 C09
+//@   nopanic
+//@   havoc
+//@   modifies @HANDLE, ghost.chansent[queue], ghost.chanlen[*], ghost.chanrecv[*]
+//@   requires h != nil && h.Service != nil
+//@   requires [request_within_limit] len(body) <= h.Service.MaxRequestLength
+//@   requires [body_is_the_datagram_payload] len(body) == ghost.dg_len[ghost.dg_cur] - 8 &&
+//@       forall(i, 0, len(body), body[i] == ghost.dg[ghost.dg_cur][8 + i])
+//@   requires [header_valid_and_announces_this_frame] uhdr_crcok(ghost.dg[ghost.dg_cur]) &&
+//@       uhdr_len(ghost.dg[ghost.dg_cur]) == len(body) && uhdr_idx(ghost.dg[ghost.dg_cur]) == index
+//@   stable h.Service
+//@   ensures [handles_exactly_this_request_once] ghost.handled == old(ghost.handled) + 1 && same(ghost.handled_req, body)
+//@   ensures [answers_at_most_once] ghost.chansent[queue] <= old(ghost.chansent[queue]) + 1
+//@   ensures [answers_under_the_request_index_to_the_sender] ghost.chansent[queue] == old(ghost.chansent[queue]) + 1 ==>
+//@       lastsent(queue).Index == index && lastsent(queue).Addr == addr
+//@   ensures [panic_becomes_error_response] ghost.chansent[queue] == old(ghost.chansent[queue]) + 1 && ghost.npanic_handle > old(ghost.npanic_handle) ==>
+//@       lastsent(queue).Error != nil
+//@   ensures [response_is_the_service_response] ghost.chansent[queue] == old(ghost.chansent[queue]) + 1 && ghost.npanic_handle == old(ghost.npanic_handle) ==>
+//@       same(lastsent(queue).Body, ghost.handle_resp) && same(lastsent(queue).Error, ghost.handle_err)
+
+//@ func (*Handler).task
+//@   prop C12 C13 C09
+//@   nopanic
+//@   modifies nothing
+//@   requires h != nil && h.Service != nil
+//@   requires [request_within_limit] len(body) <= h.Service.MaxRequestLength
+//@   requires [body_is_the_datagram_payload] len(body) == ghost.dg_len[ghost.dg_cur] - 8 &&
+//@       forall(i, 0, len(body), body[i] == ghost.dg[ghost.dg_cur][8 + i])
+//@   requires [header_valid_and_announces_this_frame] uhdr_crcok(ghost.dg[ghost.dg_cur]) &&
+//@       uhdr_len(ghost.dg[ghost.dg_cur]) == len(body) && uhdr_idx(ghost.dg[ghost.dg_cur]) == index
+
+//@ func (*Handler).sendResponse
+//@   prop C12 C13 C09
+//@   nopanic
+//@   modifies ghost.chansent[queue], ghost.chanlen[*], ghost.chanrecv[*]
+//@   ensures [at_most_one_message] ghost.chansent[queue] <= old(ghost.chansent[queue]) + 1
+//@   ensures [message_is_the_arguments] ghost.chansent[queue] == old(ghost.chansent[queue]) + 1 ==>
+//@       lastsent(queue).Index == index && same(lastsent(queue).Body, body) && same(lastsent(queue).Error, err) && lastsent(queue).Addr == addr
+
+//@ type ConnCallback(c)
+//@   nopanic
+//@   havoc
+//@ type ConnMapCallback(c) (r)
+//@   nopanic
+//@   havoc
+//@ type ErrorCallback(c, err)
+//@   nopanic
+//@   havoc
+//@ type Callback()
+//@   nopanic
+//@   havoc
+//@ fieldfunc Handler.OnClose ConnCallback
+//@ fieldfunc Handler.OnError ErrorCallback
+//@ fieldfunc conn.onClose ConnCallback
+//@ fieldfunc Transport.OnConnect ConnMapCallback
+//@ fieldfunc Transport.OnClose ConnCallback
+
+// receive (server): one datagram per iteration; too large -> refused under its index, malformed
+// (short, bad checksum, declared length different from what was received) -> reported, never dispatched.
+//@ func (*Handler).receive
+//@   prop C12 C13 C11 C09
+//@   nopanic
+//@   havoc
+//@   modifies ghost.dg_cur, ghost.chansent[*], ghost.chanlen[*], ghost.chanrecv[*], ghost.spawned, ghost.dict_has[*], ghost.dict_int[*]
+//@   requires h != nil && h.Service != nil && ref(queue) != ref(errChan)
+//@   stable h.Service, h.Service.MaxRequestLength
+//@   loop 1 ensures [refusal_only_when_too_large] ghost.chansent[queue] == old(ghost.chansent[queue]) + 1 ==>
+//@       lastsent(queue).Error == core.ErrRequestEntityTooLarge && lastsent(queue).Index == index && length > h.Service.MaxRequestLength
+//@   loop 1 ensures [at_most_one_refusal] ghost.chansent[queue] <= old(ghost.chansent[queue]) + 1
+
+// send (server): one datagram per response: header(len(body), index [| error bit]) then the body,
+// addressed to the client the request came from; a response (or error text) that does not fit one
+// datagram is answered with an error of a size that does.
+//@ func (*Handler).send
+//@   prop C12 C13 C11 C09
+//@   nopanic
+//@   havoc
+//@   modifies ghost.dgw_n, ghost.dgw_len[*], ghost.dgw[*], ghost.chansent[*], ghost.chanlen[*], ghost.chanrecv[*]
+//@   requires h != nil
+//@   loop 1 ensures [one_datagram_per_response] ghost.dgw_n == old(ghost.dgw_n) + 1
+//@   loop 1 ensures [datagram_length] ghost.dgw_len[old(ghost.dgw_n)] == 8 + len(body) && len(body) <= 65499
+//@   loop 1 ensures [header_valid_and_announces_the_body] uhdr_crcok(ghost.dgw[old(ghost.dgw_n)]) && uhdr_len(ghost.dgw[old(ghost.dgw_n)]) == len(body)
+//@   loop 1 ensures [successful_response_unchanged] e == nil ==> same(body, response.Body) &&
+//@       (0 <= response.Index && response.Index < 32768 ==> uhdr_idx(ghost.dgw[old(ghost.dgw_n)]) == response.Index && uhdr_noerr(ghost.dgw[old(ghost.dgw_n)]))
+//@   loop 1 ensures [body_follows_the_header] forall(i, 0, len(body), ghost.dgw[old(ghost.dgw_n)][8 + i] == body[i])
+
+//@ rule goroutine_roots prop=C11
+//@ rule go_ctx (*Handler).Serve from=withcancel prop=C11,C10
+//@ rule go_ctx (*Handler).receive from=param prop=C11,C10
+
+//@ func (*Handler).Serve
+//@   prop C11
+//@   nopanic
+//@   havoc
+//@   modifies ghost.*
+//@   requires h != nil && h.Service != nil
+//@   stable h.Service
+
+// ---- client side -------------------------------------------------------------------
+
+//@ guarded conn.results by lock
+//@ chaninv conn.requests len(v.Body) <= 65499
+
+//@ func (*conn).store
+//@   prop C09 C10
+//@   nopanic
+//@   requires c != nil && c.results != nil
+//@   modifies c.results[*], ghost.held[addr(c.lock)]
+//@   ensures [registered] haskey(c.results, index) && c.results[index] == resultChan
+//@   ensures [lock_released] ghost.held[addr(c.lock)] == 0
+
+//@ func (*conn).delete
+//@   prop C09 C10
+//@   nopanic
+//@   requires c != nil
+//@   modifies c.results[*], ghost.held[addr(c.lock)]
+//@   ensures [unregistered] !haskey(c.results, index)
+//@   ensures [lock_released] ghost.held[addr(c.lock)] == 0
+
+//@ func (*conn).loadAndDelete
+//@   prop C09 C10
+//@   nopanic
+//@   requires c != nil
+//@   modifies c.results[*], ghost.held[addr(c.lock)]
+//@   ensures [found_iff_registered] loaded == old(haskey(c.results, index))
+//@   ensures [returns_the_registered_channel] loaded ==> resultChan == old(c.results[index])
+//@   ensures [entry_removed] !haskey(c.results, index)
+//@   ensures [lock_released] ghost.held[addr(c.lock)] == 0
+
+// conn.send: one datagram = header(len(body), index) followed by exactly the body.
+//@ func (*conn).send
+//@   prop C12 C09 C11
+//@   nopanic
+//@   requires c != nil
+//@   requires [body_fits_one_datagram] len(request.Body) <= 65499
+//@   modifies ghost.wpos[ival(c.Conn)], ghost.wstream[ival(c.Conn)], @DGW
+//@   ensures [one_datagram] ghost.dgw_n == old(ghost.dgw_n) + 1
+//@   ensures [datagram_length] ghost.dgw_len[old(ghost.dgw_n)] == 8 + len(request.Body)
+//@   ensures [header_valid_and_announces_the_body] uhdr_crcok(ghost.dgw[old(ghost.dgw_n)]) && uhdr_len(ghost.dgw[old(ghost.dgw_n)]) == len(request.Body)
+//@   ensures [header_carries_index] 0 <= request.Index && request.Index < 32768 ==>
+//@       uhdr_idx(ghost.dgw[old(ghost.dgw_n)]) == request.Index && uhdr_noerr(ghost.dgw[old(ghost.dgw_n)])
+
+// conn.receive: one datagram in; its payload, exactly as received, goes to the caller registered
+// under the header's index; anything malformed (short, bad checksum, declared length different from
+// the received length, error flag) is an error, never a delivery.
+//@ func (*conn).receive
+//@   prop C12 C09
+//@   nopanic
+//@   requires c != nil
+//@   modifies ghost.dg_cur, c.results[*], ghost.held[addr(c.lock)], ghost.chansent[*], ghost.chanlen[*]
+//@   ensures [malformed_is_an_error] err == nil ==> ghost.dg_len[ghost.dg_cur] >= 8 && uhdr_crcok(ghost.dg[ghost.dg_cur]) &&
+//@       uhdr_noerr(ghost.dg[ghost.dg_cur]) && uhdr_len(ghost.dg[ghost.dg_cur]) == ghost.dg_len[ghost.dg_cur] - 8
+//@   ensures [index_is_the_header_index] err == nil ==> index == uhdr_idx(ghost.dg[ghost.dg_cur])
+//@   ensures [delivered_to_the_registered_caller_only] err == nil && loaded ==> resultChan == old(c.results[index]) &&
+//@       ghost.chansent[resultChan] == old(ghost.chansent[resultChan]) + 1
+//@   ensures [delivers_exactly_the_payload] err == nil && loaded ==> lastsent(resultChan).Index == index && lastsent(resultChan).Error == nil &&
+//@       len(lastsent(resultChan).Body) == ghost.dg_len[ghost.dg_cur] - 8
+//@   ensures [payload_bytes] err == nil && loaded ==>
+//@       forall(i, 0, len(lastsent(resultChan).Body), lastsent(resultChan).Body[i] == ghost.dg[ghost.dg_cur][8 + i])
+//@   ensures [entry_consumed] err == nil ==> !haskey(c.results, index)
+
+//@ func (*conn).Transport
+//@   prop C09 C10 C11
+//@   nopanic
+//@   requires c != nil && c.results != nil
+//@   modifies c.counter, c.results[*], ghost.held[addr(c.lock)], ghost.chansent[*], ghost.chanlen[*], ghost.chanrecv[*]
+//@   ensures [too_large_for_one_datagram_is_refused] len(request) > 65499 ==> err == core.ErrRequestEntityTooLarge && response == nil
+//@   ensures [index_is_15_bit] len(request) <= 65499 ==> 0 <= index && index < 32768
+//@   ensures [gave_up_leaves_no_entry] len(request) <= 65499 && err != nil && ghost.chanrecv[resultChan] == 0 ==> !haskey(c.results, index)
+
+//@ type CleanFunc(index, resultChan)
+//@   nopanic
+//@   havoc
+//@   modifies ghost.*
+
+//@ func (*conn).rangeAndClean
+//@   prop C11 C10 C09
+//@   nopanic
+//@   havoc
+//@   modifies ghost.*
+//@   flag fn.f=github.com/hprose/hprose-golang/v3/rpc/udp::CleanFunc
+//@   requires c != nil
+//@   loop 1 invariant ghost.held[addr(c.lock)] == 1
+//@   ensures [lock_released] ghost.held[addr(c.lock)] == 0
+//@   ensures [no_pending_entry_left] len(c.results) == 0
+
+//@ func (*conn).Close
+//@   prop C11 C10
+//@   nopanic
+//@   havoc
+//@   modifies ghost.*
+//@   requires c != nil
+
+//@ func (*conn).Exit
+//@   prop C11 C10
+//@   nopanic
+//@   havoc
+//@   modifies ghost.*
+//@   flag fn.onExit=github.com/hprose/hprose-golang/v3/rpc/udp::Callback
+//@   requires c != nil
+
+//@ func (*Transport).getConn$1
+//@   prop C11 C10
+//@   nopanic
+//@   havoc
+//@   modifies ghost.held[addr(trans.lock)]
+//@   ensures [lock_released] ghost.held[addr(trans.lock)] == 0
+//@   ensures [dead_connection_leaves_the_pool] !(haskey(trans.conns, key) && trans.conns[key] == conn)
+
+//@ func (*conn).Send
+//@   prop C11 C10
+//@   nopanic
+//@   havoc
+//@   modifies ghost.*
+//@   flag fn.onExit=github.com/hprose/hprose-golang/v3/rpc/udp::Callback
+//@   requires c != nil
+
+//@ func (*conn).Receive
+//@   prop C11 C10
+//@   nopanic
+//@   havoc
+//@   modifies ghost.*
+//@   flag fn.onExit=github.com/hprose/hprose-golang/v3/rpc/udp::Callback
+//@   requires c != nil
